@@ -103,9 +103,15 @@ func (s *regStore) tags() []string {
 	return tl.Tags
 }
 
-func (s *regStore) snapshot() map[string]string {
+func (s *regStore) snapshot() map[string]string { return s.snapshotExcept("") }
+
+// snapshotExcept describes everything reachable from every tag but skip.
+func (s *regStore) snapshotExcept(skip string) map[string]string {
 	snap := map[string]string{}
 	for _, t := range s.tags() {
+		if t == skip {
+			continue
+		}
 		body, dig, ok := s.tag(t)
 		if !ok {
 			continue
@@ -374,7 +380,6 @@ type auditor struct {
 	counts   map[string]int64
 	configs  []aConfig
 	foreign  map[string]bool // digests that are external (urls) layers in the fixtures
-	rehashed map[string]string // sha512 digests of fixture blobs and of their decompressed form (diagnosis only)
 }
 
 func newAuditor(st rawStore) *auditor {
@@ -410,11 +415,10 @@ func (a *auditor) checkDesc(d aDesc, loc string, manifest bool, where string) ([
 			return nil, false
 		}
 		key := "missing " + loc
-		if src := a.rehashed[d.Digest]; src != "" {
-			// diagnosis: the descriptor names the digest, under the new algorithm, of a stream read from
-			// the source instead of the digest of the blob that was pushed
-			key += " names-rehashed-source-stream"
-			where += " [it is the " + src + "]"
+		if alg != "sha256" {
+			// diagnosis (one defect, one key): every fixture is sha256, so this digest was computed by mod
+			// during this Apply - over a stream that is not the blob it pushed
+			key += " rehashed-digest-of-unpushed-stream"
 		}
 		if a.foreign[d.Digest] {
 			// one defect, one key: the descriptor of a (formerly) external layer lost its urls but the
